@@ -11,6 +11,7 @@ structure CrashSt where
   members : List (Nat × Bool) := []   -- epoch ↦ is this node in the epoch's group
   lastEp : Nat := 0
   running : Bool := false             -- a beacon handler exists (the chain store is open)
+  dedupe : Bool := true               -- sampled modes: second-level images once per distinct (record, group, share) of an op
   hasBp : Bool := false
   deriving Inhabited
 
@@ -119,24 +120,44 @@ def showRecAt (member : Nat → Bool) (d : Disk) (expand : Bool) (chain : String
   let r2 := if ops.isEmpty then "" else ";r2=" ++ "+".intercalate (("trace:" ++ ",".intercalate (ops.map opLabel)) :: items)
   showRec r ++ chain ++ pre ++ r2
 
-/-- all crash images of `ops` from `d`, labelled like the harness labels them -/
-def labelledCuts (member : Nat → Bool) (d : Disk) (ops : List Op) : List String :=
-  (crashImages d ops).flatMap fun (c, img) =>
-    let rc := showRecAt member img (match c with | .after _ => true | .during _ _ => false)
+/-- the state by which the sampled modes of the harness decide whether a reconciling start-up is killed step by step -/
+def stateKey (d : Disk) : String :=
+  s!"{showFin d.db.finished}|{showLoaded (loadFile d.group)}|{showLoaded (loadFile d.share)}"
+
+/-- all crash images of `ops` from `d`, labelled like the harness labels them; second-level images (a start-up that writes
+key files, killed at each of its steps) below the whole first-level images — with `dedupe` once per distinct state -/
+def labelledCuts (dedupe : Bool) (member : Nat → Bool) (d : Disk) (ops : List Op) : List String :=
+  let step (acc : List String × List String) (ci : Cut × Disk) : List String × List String :=
+    let (out, seen) := acc
+    let (c, img) := ci
+    let writes := !(observable img (startupOps member img)).isEmpty
+    let show1 (x : Disk) (whole : Bool) (seen : List String) : String × List String :=
+      let w := !(observable x (startupOps member x)).isEmpty
+      let expand := whole && !(dedupe && seen.contains (stateKey x))
+      (showRecAt member x expand, if whole && w && dedupe then stateKey x :: seen else seen)
     match c with
-    | .after 0 => [s!"start;{rc}"]
+    | .after 0 =>
+      let (rc, seen) := show1 img true seen
+      (out ++ [s!"start;{rc}"], seen)
     | .after (k + 1) =>
       match ops[k]? with
       | some (.saveFinished e) =>
         -- the harness also reports the image one bbolt commit back (= the image before the call)
         let before := run d (ops.take k)
-        [s!"SaveFinished~rollback;{showRecAt member before true}", s!"{opLabel (.saveFinished e)};{rc}"]
-      | some op => [s!"{opLabel op};{rc}"]
-      | none => []
+        let (rb, seen) := show1 before true seen
+        let (rc, seen) := show1 img true seen
+        (out ++ [s!"SaveFinished~rollback;{rb}", s!"{opLabel (.saveFinished e)};{rc}"], seen)
+      | some op =>
+        let (rc, seen) := show1 img true seen
+        (out ++ [s!"{opLabel op};{rc}"], seen)
+      | none => (out, seen)
     | .during k cl =>
       match ops[k]? with
-      | some op => [s!"{opLabel op}@{className cl};{rc}"]
-      | none => []
+      | some op =>
+        let _ := writes
+        (out ++ [s!"{opLabel op}@{className cl};{showRecAt member img false}"], seen)
+      | none => (out, seen)
+  ((crashImages d ops).foldl step ([], [])).1
 
 def parseOrder (s : String) : Option (List Stage) :=
   (s.splitOn ",").mapM fun x =>
@@ -158,13 +179,13 @@ def outcomeBoot : Outcome → String
 
 def crashStep (s : CrashSt) (f : List String) : CrashSt × String :=
   match f with
-  | ["init", _, _, _, _] => ({ hasBp := true }, "ok")
+  | ["init", _, _, _, _] => ({ hasBp := true, dedupe := s.dedupe }, "ok")
   | ["staged", st] =>
     match statusName st with
     | none => (s, "bad-op")
     | some name =>
       let ops := stagedOps (s.lastEp + 1) name
-      let cuts := labelledCuts s.member s.disk ops
+      let cuts := labelledCuts s.dedupe s.member s.disk ops
       ({ s with disk := run s.disk ops }, " | ".intercalate ("tx=1" :: cuts))
   | "dkg" :: kind :: members :: _thr :: opts =>
     let me := (members.splitOn ",").contains "0"
@@ -174,7 +195,7 @@ def crashStep (s : CrashSt) (f : List String) : CrashSt × String :=
     if !s.hasBp then (s, "no-node") else
     let order := (opts.filterMap fun o => if o.startsWith "order=" then parseOrder (o.drop 6).toString else none).head?.getD codeOrder
     let ops := observable s.disk (if me then completionOpsIn codeWriteMode order e else evictionOpsIn codeWriteMode order e)
-    let cuts := labelledCuts s1.member s.disk ops
+    let cuts := labelledCuts s.dedupe s1.member s.disk ops
     let trace := ",".intercalate (ops.map opLabel)
     let d' := run s.disk ops
     -- joinNetwork -> StartBeacon -> NewHandler creates the chain store and stores the genesis beacon
